@@ -142,6 +142,12 @@ class Gen:
         c = r.random()
         if cands and c < 0.15:
             return ("id", r.choice(cands))
+        if c < 0.19 and ty in ("int", "bool", "str", "float"):
+            av = [v for v in cands if not v.startswith("i")]
+            if av:
+                # an assignment is an expression: its value is the value assigned
+                self.note("assign-as-value")
+                return ("assign", ("id", r.choice(av)), self.expr(ty, d - 1))
         # a call of a visible function returning ty
         fns = [n for n, t in self.env.visible().items() if isinstance(t, tuple) and t[0] == "fn" and t[2] == ty and n not in self.env.defining]
         if fns and c < 0.3:
@@ -411,7 +417,9 @@ class Gen:
                 return ("expr", ("if", self.expr("bool", d - 1), [("ret", self.expr(rt, d - 1))], [("expr", self.expr(rt, d - 1))]))
             return ("expr", ("if", self.expr("bool", d - 1), [("ret", self.expr(rt, d - 1))], [("ret", self.expr(rt, d - 1))]))
         if c < 0.96 and self.funcs and d > 0 and env.depth_fn < 2:
-            fty = ("fn", [r.choice(["int", "int", "bool", "str", ("arr", "int")]) for _ in range(r.randint(0, 3))], r.choice(["int", "str", "bool", ("arr", "int"), "null"]))
+            fty = ("fn", [r.choice(["int", "int", "bool", "str", ("arr", "int")]) if r.random() > 0.12 else ("fn", ["int"], "int") for _ in range(r.randint(0, 3))], r.choice(["int", "str", "bool", ("arr", "int"), "null"]))
+            if any(isinstance(t, tuple) and t[0] == "fn" for t in fty[1]):
+                self.note("fn-typed-parameter")
             name = env.fresh("f")
             if r.random() < self.collide:
                 b = env.borrowed(r)
@@ -446,6 +454,14 @@ class Gen:
         env.pop_scope()
         env.loop_depth[-1] -= 1
         w = ("while", ("infix", "<", ("id", cnt), ("int", bound)), body)
+        k = r.random()
+        if k < 0.1:
+            self.note("loop-literal-false")
+            w = ("while", ("bool", False), body)
+        elif k < 0.2:
+            # zolang ja { i = i + 1; als i > n { stop } ... }: leaves by `stop` only
+            self.note("loop-literal-true")
+            w = ("while", ("bool", True), [body[0], ("expr", ("if", ("infix", ">", ("id", cnt), ("int", bound)), [("break",)], None))] + body[1:])
         # the counter declaration and the loop are two statements of the enclosing block
         return ("block2", ("let", cnt, ("int", 0)), ("expr", w))
 
